@@ -479,10 +479,10 @@ def strata(tier, seed):
     top = 4 if tier == 'quick' else 5
     ls = [dict(n=list(n), ms=list(range(1, 13)), seeds=[0, 1, 2, 3, 4], script_m=4 if len(n) == 1 else 0)
           for d in (1, 2, 3) for n in itertools.product(range(1, top + 1), repeat=d)]
-    yield Stratum('lhs', ls, 'lhs', size=len(ls), chunk=4, bounds={'n': '{1..%d}^d, d<=3' % top, 'm': '1..12'})
+    yield Stratum('lhs', ls, 'lhs', seq=(tier == 'quick'), size=len(ls), chunk=4, bounds={'n': '{1..%d}^d, d<=3' % top, 'm': '1..12'})
     ms = [dict(n=[4] * 34, ms=[1], rs=[2, 3], seeds=[0]), dict(n=[10] * 21, ms=[1], rs=[2], seeds=[1]), dict(n=[2] * 70, ms=[2], rs=[2], seeds=[0]),
           dict(n=[40, 50, 60], ms=[3], rs=[5], seeds=[0]), dict(n=[300, 7], ms=[3], rs=[2], seeds=[0]),
           dict(n=[3, 2, 3], ms=[1], rs=[2], seeds=[0], many=20001), dict(n=[2, 3], ms=[1], rs=[2], seeds=[0], many=40001)] + \
          [dict(n=list(n), ms=[1, 2, 7], rs=[1, 2, 3, 4], seeds=[0, 1, 2])
           for d in (1, 2, 3, 4) for n in itertools.product((2, 3, 4) if d > 2 else (1, 2, 3, 4), repeat=d)]
-    yield Stratum('rand / rand_poi / tt layout / many rows', ms, 'misc', size=len(ms), chunk=8, bounds={})
+    yield Stratum('rand / rand_poi / tt layout / many rows', ms, 'misc', seq=(tier == 'quick'), size=len(ms), chunk=8, bounds={})
